@@ -20,6 +20,9 @@ func ruleC15(prog *Program, rep *Report) {
 	ruleEmbedParity(prog, rep)
 	ruleFloatBits(prog, rep)
 	ruleCacheExclusive(prog, rep)
+	// a reused (pooled) writer that keeps the previous call's stream writes part of the text elsewhere:
+	// sen.String and oj.JSON then disagree with the other encoders
+	ruleEntryParity(prog, rep, "oj.Writer", "sen.Writer")
 }
 
 // fieldLoops finds `for` loops whose init or condition calls NumField().
@@ -208,9 +211,15 @@ func ruleEmbedParity(prog *Program, rep *Report) {
 						if !ok {
 							return true
 						}
-						for _, l := range as.Lhs {
+						for li, l := range as.Lhs {
 							if sel, ok := l.(*ast.SelectorExpr); ok && useObj(info, sel.X) == elem {
-								set[sel.Sel.Name] = true
+								// the field, the assignment operator and the shape of the value: `offset += f.Offset`
+								// and `offset = f.Offset` are different patches
+								rhs := ""
+								if li < len(as.Rhs) {
+									rhs = types.ExprString(as.Rhs[li])
+								}
+								set[sel.Sel.Name+" "+as.Tok.String()+" "+rhs] = true
 							}
 						}
 						return true
@@ -220,7 +229,7 @@ func ruleEmbedParity(prog *Program, rep *Report) {
 						fl = append(fl, k)
 					}
 					sort.Strings(fl)
-					sites = append(sites, site{key: fmt.Sprintf("%s.%s:%s", rel, funcKey(fd), form), form: rel + ":" + form, fields: strings.Join(fl, ","), pos: rs.Pos()})
+					sites = append(sites, site{key: fmt.Sprintf("%s.%s:%s", rel, funcKey(fd), form), form: rel + ":" + form, fields: strings.Join(fl, "; "), pos: rs.Pos()})
 					return true
 				})
 			}
